@@ -334,7 +334,9 @@ impl PrimeField for Fp {
 impl From<k256::FieldElement> for Fp {
     #[inline]
     fn from(fe: k256::FieldElement) -> Self {
-        Self(fe)
+        // k256 elements are lazily reduced: normalize, as every other
+        // constructor of this wrapper does.
+        Self(fe.normalize())
     }
 }
 
